@@ -53,8 +53,24 @@ void h_SET_OF_encode_uper(void) {
 #define VF_OFF 0
 #endif
 	vf_cb_fail_at = fail_at;
+#ifdef VF_SIZECT
+	/* SIZE(VF_SIZECT), not extensible: no length determinant (X.691 20.5); any other number of elements cannot be encoded */
+	static asn_per_constraints_t pc; memset(&pc, 0, sizeof(pc));
+	pc.value.flags = APC_UNCONSTRAINED; pc.value.range_bits = -1; pc.value.effective_bits = -1;
+	pc.size.flags = APC_CONSTRAINED; pc.size.range_bits = 0; pc.size.effective_bits = 0; pc.size.lower_bound = VF_SIZECT; pc.size.upper_bound = VF_SIZECT;
+	asn_enc_rval_t er = SET_OF_encode_uper(&L_td, &pc, &l, &po);
+	VF_CANARY();
+	if(count != VF_SIZECT) { __CPROVER_assert(er.encoded == -1, "C07/C08: a list that violates its fixed SIZE constraint cannot be encoded"); return; }
+	if(er.encoded == -1) return;
+	{ int fl2 = per_put_aligned_flush(&po);
+	  if(vf_cb_failed) { __CPROVER_assert(fl2 != 0, "C07: an output failure is reported"); return; }
+	  __CPROVER_assert(fl2 == 0 && vf_cb_bytes == VF_OFF + (size_t)count, "C02: no length determinant for a fixed size");
+	  for(int i = 0; i < 3; i++) if(i < count) __CPROVER_assert(vf_cb_log[VF_OFF + i] == s[i], "C06: elements in ascending order of their encodings");
+	  return; }
+#else
 	asn_enc_rval_t er = SET_OF_encode_uper(&L_td, 0, &l, &po);
 	VF_CANARY();
+#endif
 	if(er.encoded == -1) return;             /* allocation or output failure: clean failure, nothing leaked (leak check) */
 	int fl = per_put_aligned_flush(&po);
 	if(vf_cb_failed) { __CPROVER_assert(fl != 0 || er.encoded == -1, "C07: an output failure is reported"); return; }
